@@ -43,6 +43,8 @@ def mc_calendar(res, tier, seed, vec_path):
     info = run_mc("MC_Calendar", consts, workers=C.NCPU, vec_out=vec_path, timeout=3000)
     info["years_walked"] = len(years)
     res.add_mc(info)
+    if tier == "thorough":
+        res.notes["apalache_unbounded_lemmas"] = C.run_apalache("Apa_Calendar", "Lemmas")
 
 
 def check_C01(tier, seed):
@@ -698,10 +700,54 @@ CHECKS = {"C07": check_C07, "C19": check_C19, "C15": check_C15, "C10": check_C10
           "C14": check_C14}
 
 
+def replay(path):
+    """Re-run the event of a violation file against the current tree and through the trace specification."""
+    v = json.load(open(path))
+    ev = v["event"]
+    if ev.get("op") in ("build", "assert-traits", "threads", "env", "length") or "a" not in ev:
+        print("this violation is not a single API event; re-run the check itself:", f"bin/check {v['property']} --tier {v.get('tier', 'quick')}")
+        return 2
+    b, err = build_harness("chk")
+    if b is None:
+        print(err); return 2
+    lines = []
+    ctx = (v.get("extra") or {}).get("context")
+    if ctx:
+        lines.append({"op": ctx["op"], "a": ctx["a"], "g": 1})
+    e = {"op": ev["op"], "a": ev["a"]}
+    exp = (v.get("extra") or {}).get("expected")
+    if exp:
+        e["x"] = exp
+    lines.append(e)
+    os.makedirs(C.OUT, exist_ok=True)
+    inp, outp = os.path.join(C.OUT, "replay.in"), os.path.join(C.OUT, "replay.ndjson")
+    open(inp, "w").write("\n".join(json.dumps(l) for l in lines) + "\n")
+    C.run_harness(b, inp, outp)
+    got = [json.loads(l) for l in open(outp)]
+    print("observed now :", json.dumps(got[-1]["r"])[:2000])
+    print("observed then:", json.dumps(ev.get("r"))[:2000])
+    still = False
+    if exp is not None:
+        print("specification admits:", json.dumps(exp)[:2000])
+        still = got[-1].get("m") == 0
+    tr = C.run_trace(outp, nshards=1)
+    tags = sorted({t for (_, t, _, _, _) in tr["bad"]})
+    print("trace specification tags now:", tags, " tag then:", v["tag"])
+    still = still or bool(tags)
+    print("REPRODUCED" if still else "NOT REPRODUCED (the current tree agrees with the specification on this event)")
+    return 1 if still else 0
+
+
 def main(argv):
     if not argv:
         print(__doc__)
         return 2
+    if argv[0] == "replay":
+        try:
+            return replay(argv[1])
+        except ToolError as e:
+            print("TOOL-ERROR:", e)
+            return 2
     if argv[0] == "setup":
         b, err = build_harness("chk")
         if b is None:
